@@ -19,6 +19,10 @@ use rpki_verif::engine::pki::*;
 use rpki_verif::engine::signer::PoolSigner;
 use rpki_verif::{guard, hex, Ctx};
 
+#[path = "../shared/mutate.rs"]
+#[allow(dead_code)]
+mod mutate;
+
 const TA_KEY: usize = 0;
 const CA_KEY: usize = 1;
 const LEAF_KEY: usize = 2;
@@ -751,5 +755,230 @@ fn main() {
         sp.done(true, "all single-bit flips of 4 seed certificates x 2 decode modes");
     }
 
+    //---------------------------------------------------------------- re-signed deviations
+    // Everything below signs what it built with the issuer's real key, so the
+    // signature never is what stops a non-conforming certificate: the other
+    // conditions of the property have to.
+    {
+        let ca_res = Res { v4: Claim::Blocks(vec![(0x0a00_0000, 0x0aff_ffff), (0xc000_0200, 0xc000_02ff)]), v6: Claim::Blocks(vec![(0x2001_0db8u128 << 96, (0x2001_0db8u128 << 96) | ((1u128 << 96) - 1))]), asn: Claim::Blocks(vec![(64496, 64511)]) };
+        let ca = valid_ca(&signer, &ta, TA_KEY, CA_KEY, ca_res.clone());
+        let facts = IssuerFacts {
+            ski: signer.ski(CA_KEY).as_slice().to_vec(),
+            v4: vec![(0x0a00_0000, 0x0aff_ffff), (0xc000_0200, 0xc000_02ff)],
+            v6: vec![(0x2001_0db8u128 << 96, (0x2001_0db8u128 << 96) | ((1u128 << 96) - 1))],
+            asn: vec![(64496, 64511)],
+        };
+        let sub_res = Res { v4: Claim::Blocks(vec![(0x0a00_0000, 0x0a00_ffff), (0xc000_0200, 0xc000_027f)]), v6: Claim::Blocks(vec![(0x2001_0db8u128 << 96, (0x2001_0db8u128 << 96) | ((1u128 << 80) - 1))]), asn: Claim::Blocks(vec![(64500, 64503)]) };
+        let seed_of = |kind: Kind, mode: Overclaim| -> Vec<u8> {
+            let res = match kind {
+                Kind::Ca => sub_res.clone(),
+                Kind::Ee => Res { v4: Claim::Blocks(vec![(0x0a00_0000, 0x0a00_00ff)]), v6: Claim::Inherit, asn: Claim::Missing },
+                _ => Res { v4: Claim::Missing, v6: Claim::Missing, asn: Claim::Blocks(vec![(64500, 64500)]) },
+            };
+            build_cert_der(&signer, &Spec::issued(kind, if kind == Kind::Ca { CA2_KEY } else { LEAF_KEY }, CA_KEY, signer.ski(CA_KEY), res, mode))
+        };
+        let tbs_of = |cert: &[u8]| -> Vec<u8> { let r = rpki_verif::engine::der::parse_one(cert, false).expect("seed parses"); r.children[0].whole(cert).to_vec() };
+        // One evaluation: sign, decode in one mode, validate, compare with the reference reader.
+        let run = |sp: &rpki_verif::engine::report::Space, oracle_prefix: &str, kind: Kind, tbs: &[u8], must_accept: bool, wit: &dyn Fn(bool) -> String| {
+            let cert = sign_tbs(&signer, CA_KEY, tbs);
+            for strict in [true, false] {
+                sp.eval();
+                let r = guard(|| {
+                    let c = if strict { Cert::decode(cert.as_slice()) } else { bcder::Mode::Ber.decode(cert.as_slice(), Cert::take_from) };
+                    match c { Err(_) => Err("rejected-at-decode"), Ok(c) => validate(kind, c, &ca, strict, time(T0)).map_err(|_| "rejected-at-validation") }
+                });
+                match r {
+                    Err(p) => ctx.fail(&format!("{oracle_prefix}.nopanic"), wit(strict), p),
+                    Ok(Err(stage)) => {
+                        if must_accept { ctx.fail(&format!("{oracle_prefix}.conforming_accepted"), wit(strict), format!("a conforming certificate is {stage}")) }
+                        sp.outcome(stage)
+                    }
+                    Ok(Ok(rc)) => match check_accepted(&cert, kind, &facts, rc.as_ref(), T0, strict) {
+                        Ok(class) => sp.outcome(class),
+                        Err((o, d)) => ctx.fail(&format!("{oracle_prefix}.{o}"), wit(strict), format!("{d}; certificate={}", hex(&cert))),
+                    },
+                }
+            }
+        };
+
+        {
+            let sp = ctx.space("resigned.tbs_deviations",
+                "every single deviation (complete operator menu of shared/mutate.rs: tags, lengths, contents, typed values, list shapes, size classes, splices) at every TLV node of the to-be-signed part of one valid certificate per kind (sub-CA, EE, router; thorough: also the trimming-policy sub-CA), the result signed with the issuer's real key, decoded strict and relaxed, validated at T0 under the issuer; oracle: whatever is accepted is read back with the reference reader (engine/certref.rs, no library code) and must carry exactly the issuer's key identifier as AKI, SHA-1(key bits) as SKI, a window containing T0, claims inside the issuer, and the result resources must equal the union of everything claimed (refuse) / its intersection with the issuer (trim) / the issuer's (inherit); non-trivial = every deviation");
+            let mut seeds = vec![("ca", Kind::Ca, Overclaim::Refuse), ("ee", Kind::Ee, Overclaim::Refuse), ("router", Kind::Router, Overclaim::Refuse)];
+            if ctx.tier.is_thorough() { seeds.push(("ca.trim", Kind::Ca, Overclaim::Trim)); seeds.push(("ee.trim", Kind::Ee, Overclaim::Trim)) }
+            for (sname, kind, mode) in seeds {
+                let cert = seed_of(kind, mode);
+                let tbs = tbs_of(&cert);
+                run(&sp, "C01.resigned.baseline", kind, &tbs, true, &|strict| format!("seed={sname} strict={strict} unmodified"));
+                let tree = mutate::Tree::parse(&tbs).expect("TBS parses");
+                let src = tree.first_of_each_tag();
+                let work: Vec<(usize, mutate::Op)> = (0..tree.len()).flat_map(|i| tree.full_menu(i, &src).into_iter().map(move |op| (i, op))).collect();
+                work.par_iter().for_each(|&(i, op)| {
+                    let m = match guard(|| tree.apply1(&tbs, i, op)) { Ok(m) => m, Err(e) => { ctx.machinery_error(format!("mutate {i} {op:?}: {e}")); return } };
+                    if m == tbs { return }
+                    sp.nontrivial(1);
+                    run(&sp, "C01.resigned", kind, &m, false, &|strict| format!("seed={sname} strict={strict} node={i} op={}", op.name(&tree).replace(' ', "_")));
+                });
+                sp.sample_str(|| format!("seed={sname}: {} nodes, {} deviations", tree.len(), work.len()));
+            }
+            sp.done(true, "bound 1: all operators x all nodes of the TBS of 3 (thorough: 5) seed certificates x 2 decode modes");
+        }
+
+        {
+            use rpki_verif::engine::{certref as cr, der};
+            let sp = ctx.space("resigned.resource_shapes",
+                "the resource extensions of a sub-CA and an EE certificate replaced by every sequence of <= 3 entries over {v4 inside A, v4 inside B, v4 outside, v4 inherit, v6 inside, v6 outside, v6 inherit} (one extension) and every pair of one-entry extensions, resp. <= 3 entries over {asnum inside A, asnum inside B, asnum outside, asnum inherit, rdi blocks, rdi inherit}; both overclaim policies; re-signed; oracle: reference reader as above (result = union of all entries of a family), and the shapes with at most one entry per family, v4 before v6, everything inside the issuer must be accepted; non-trivial = every shape");
+            let v4e = |items: Option<&[der::IpItem]>| der::seq(&[der::octets(&[0, 1]), match items { None => der::null(), Some(v) => der::seq(&v.iter().map(|i| match i { der::IpItem::Prefix(a, l) => der::ip_prefix_bits(*a, *l, 32), der::IpItem::Range(a, b) => der::ip_range(*a, *b, 32) }).collect::<Vec<_>>()) }]);
+            let v6e = |items: Option<&[der::IpItem]>| der::seq(&[der::octets(&[0, 2]), match items { None => der::null(), Some(v) => der::seq(&v.iter().map(|i| match i { der::IpItem::Prefix(a, l) => der::ip_prefix_bits(*a, *l, 128), der::IpItem::Range(a, b) => der::ip_range(*a, *b, 128) }).collect::<Vec<_>>()) }]);
+            // (name, family 4|6, inside issuer?, encoding)
+            let ip_alpha: Vec<(&str, u8, bool, Vec<u8>)> = vec![
+                ("v4A", 4, true, v4e(Some(&[der::IpItem::Prefix(0x0a00_0000, 16)]))),
+                ("v4B", 4, true, v4e(Some(&[der::IpItem::Prefix(0xc000_0200, 24)]))),
+                ("v4out", 4, false, v4e(Some(&[der::IpItem::Prefix(0x0b00_0000, 8)]))),
+                ("v4inh", 4, true, v4e(None)),
+                ("v6A", 6, true, v6e(Some(&[der::IpItem::Prefix(0x2001_0db8u128 << 96, 48)]))),
+                ("v6out", 6, false, v6e(Some(&[der::IpItem::Prefix(0x2001_0db9u128 << 96, 32)]))),
+                ("v6inh", 6, true, v6e(None)),
+            ];
+            let asb = |items: Option<&[der::AsItem]>| match items { None => der::null(), Some(v) => der::seq(&v.iter().map(|i| match i { der::AsItem::Id(a) => der::int_u(*a), der::AsItem::Range(a, b) => der::seq(&[der::int_u(*a), der::int_u(*b)]) }).collect::<Vec<_>>()) };
+            let as_alpha: Vec<(&str, u8, bool, Vec<u8>)> = vec![
+                ("asA", 0, true, der::ctx(0, true, &asb(Some(&[der::AsItem::Id(64500)])))),
+                ("asB", 0, true, der::ctx(0, true, &asb(Some(&[der::AsItem::Range(64497, 64498)])))),
+                ("asout", 0, false, der::ctx(0, true, &asb(Some(&[der::AsItem::Id(65000)])))),
+                ("asinh", 0, true, der::ctx(0, true, &asb(None))),
+                ("rdi", 1, true, der::ctx(1, true, &asb(Some(&[der::AsItem::Id(64500)])))),
+                ("rdiinh", 1, true, der::ctx(1, true, &asb(None))),
+            ];
+            let seqs = |n: usize| -> Vec<Vec<usize>> {
+                let mut out = Vec::new();
+                for len in 1..=3usize { for k in 0..n.pow(len as u32) { let mut v = Vec::new(); let mut x = k; for _ in 0..len { v.push(x % n); x /= n } out.push(v) } }
+                out
+            };
+            for kind in [Kind::Ca, Kind::Ee] {
+                for mode in [Overclaim::Refuse, Overclaim::Trim] {
+                    let spec = Spec::issued(kind, if kind == Kind::Ca { CA2_KEY } else { LEAF_KEY }, CA_KEY, signer.ski(CA_KEY), sub_res.clone(), mode);
+                    let tbs = tbs_of(&build_cert_der(&signer, &spec));
+                    // (label, is-ip, list of extension bodies (each a list of entries))
+                    let mut work: Vec<(String, bool, Vec<Vec<usize>>)> = Vec::new();
+                    for s in seqs(ip_alpha.len()) { work.push((s.iter().map(|i| ip_alpha[*i].0).collect::<Vec<_>>().join(","), true, vec![s])) }
+                    for a in 0..ip_alpha.len() { for b in 0..ip_alpha.len() { work.push((format!("{}|{}", ip_alpha[a].0, ip_alpha[b].0), true, vec![vec![a], vec![b]])) } }
+                    for s in seqs(as_alpha.len()) { work.push((s.iter().map(|i| as_alpha[*i].0).collect::<Vec<_>>().join(","), false, vec![s])) }
+                    for a in 0..as_alpha.len() { for b in 0..as_alpha.len() { work.push((format!("{}|{}", as_alpha[a].0, as_alpha[b].0), false, vec![vec![a], vec![b]])) } }
+                    work.par_iter().for_each(|(label, is_ip, exts)| {
+                        let alpha = if *is_ip { &ip_alpha } else { &as_alpha };
+                        let m = cr::map_extensions(&tbs, &mut |oid, whole| {
+                            let hit = if *is_ip { oid == cr::OID_IP || oid == cr::OID_IP_V2 } else { oid == cr::OID_AS || oid == cr::OID_AS_V2 };
+                            if !hit { return vec![whole.to_vec()] }
+                            exts.iter().map(|e| cr::extension(oid, true, &der::seq(&e.iter().map(|i| alpha[*i].3.clone()).collect::<Vec<_>>()))).collect()
+                        });
+                        // conforming: one extension, each family (resp. asnum) at most once, v4 before v6, no rdi, all inside
+                        let flat: Vec<usize> = exts.iter().flatten().copied().collect();
+                        let fams: Vec<u8> = flat.iter().map(|i| alpha[*i].1).collect();
+                        let mut sorted = fams.clone(); sorted.sort(); sorted.dedup();
+                        let conforming = exts.len() == 1 && sorted == fams && flat.iter().all(|i| alpha[*i].2) && (*is_ip || fams == [0]);
+                        sp.nontrivial(1);
+                        run(&sp, "C01.shapes", kind, &m, conforming, &|strict| format!("kind={} mode={} strict={strict} {}={label}", kind_name(kind), mode_name(mode), if *is_ip { "ip" } else { "as" }));
+                    });
+                    sp.sample_str(|| format!("kind={} mode={}: {} shapes", kind_name(kind), mode_name(mode), work.len()));
+                }
+            }
+            sp.done(true, "all entry sequences of length <= 3 and all pairs of one-entry extensions over 7 (IP) / 6 (AS) entry values x 2 kinds x 2 policies x 2 decode modes");
+        }
+
+        {
+            use rpki_verif::engine::{certref as cr, der};
+            let sp = ctx.space("resigned.key_identifiers",
+                "the key identifier inside the SKI resp. AKI extension of a sub-CA, EE and router certificate replaced by every member of {right, right minus last octet, right minus first octet, right + 00, right + right, right + 107 octets, last bit flipped, first bit flipped, empty, other key's} in the primitive and (AKI, SKI) two constructed-string spellings, plus AKI without keyIdentifier; re-signed; oracle: accepted only if the identifier is exactly the right 20 octets (reference reader), and the right one in primitive form is accepted; non-trivial = every spelling");
+            for kind in [Kind::Ca, Kind::Ee, Kind::Router] {
+                let subj = if kind == Kind::Ca { CA2_KEY } else { LEAF_KEY };
+                let res = match kind { Kind::Router => Res { v4: Claim::Missing, v6: Claim::Missing, asn: Claim::Blocks(vec![(64500, 64500)]) }, _ => sub_res.clone() };
+                let cert = build_cert_der(&signer, &Spec::issued(kind, subj, CA_KEY, signer.ski(CA_KEY), res, Overclaim::Refuse));
+                let tbs = tbs_of(&cert);
+                let right_ski = cr::read_cert(&cert).expect("seed reads").ski[0].clone();
+                let right_aki = facts.ski.clone();
+                for which in ["ski", "aki"] {
+                    let right = if which == "ski" { right_ski.clone() } else { right_aki.clone() };
+                    let other = signer.ski(OTHER_KEY).as_slice().to_vec();
+                    let mut vals: Vec<(&str, Vec<u8>)> = vec![
+                        ("right", right.clone()), ("minus_last", right[..19].to_vec()), ("minus_first", right[1..].to_vec()),
+                        ("plus_00", [right.clone(), vec![0]].concat()), ("twice", [right.clone(), right.clone()].concat()),
+                        ("plus_107", [right.clone(), vec![0xa5; 107]].concat()),
+                        ("last_bit", { let mut r = right.clone(); r[19] ^= 1; r }), ("first_bit", { let mut r = right.clone(); r[0] ^= 0x80; r }),
+                        ("empty", vec![]), ("other_key", other),
+                    ];
+                    if which == "aki" { vals.push(("absent", vec![])) }
+                    for (vname, val) in &vals {
+                        for spelling in ["prim", "cons2", "cons_tail"] {
+                            let tag_p = if which == "ski" { 0x04u8 } else { 0x80 };
+                            let kid = match spelling {
+                                "prim" => der::tlv(tag_p, val),
+                                "cons2" => { let h = val.len() / 2; der::tlv(tag_p | 0x20, &[der::octets(&val[..h]), der::octets(&val[h..])].concat()) }
+                                _ => { let h = val.len().min(20); der::tlv(tag_p | 0x20, &[der::octets(&val[..h]), der::octets(&val[h..])].concat()) }
+                            };
+                            if *vname == "absent" && spelling != "prim" { continue }
+                            let body = if which == "ski" { kid } else if *vname == "absent" { der::seq(&[]) } else { der::seq(&[kid]) };
+                            let m = cr::map_extensions(&tbs, &mut |oid, whole| {
+                                if (which == "ski" && oid == cr::OID_SKI) || (which == "aki" && oid == cr::OID_AKI) { vec![cr::extension(oid, false, &body)] } else { vec![whole.to_vec()] }
+                            });
+                            sp.nontrivial(1);
+                            run(&sp, "C01.keyid", kind, &m, *vname == "right" && spelling == "prim", &|strict| format!("kind={} strict={strict} ext={which} value={vname} spelling={spelling}", kind_name(kind)));
+                            // the right identifier in DER form is what the seed itself carries: it must be accepted
+                            if *vname == "right" && spelling == "prim" && m != tbs { ctx.machinery_error(format!("kind={} ext={which}: rebuilding the extension with its own value changes the TBS", kind_name(kind))) }
+                        }
+                    }
+                }
+                run(&sp, "C01.keyid.baseline", kind, &tbs, true, &|strict| format!("kind={} strict={strict} unmodified", kind_name(kind)));
+            }
+            sp.done(true, "10 (AKI: 11) identifier values x 3 spellings x {SKI, AKI} x 3 kinds x 2 decode modes");
+        }
+    }
+
     ctx.finish();
+}
+
+struct IssuerFacts { ski: Vec<u8>, v4: Vec<(u128, u128)>, v6: Vec<(u128, u128)>, asn: Vec<(u128, u128)> }
+
+/// What the property demands of a certificate the library accepted, decided
+/// from the certificate's octets by the reference reader alone.
+fn check_accepted(cert: &[u8], kind: Kind, iss: &IssuerFacts, rc: Option<&ResourceCert>, t: i64, strict: bool) -> Result<&'static str, (&'static str, String)> {
+    use rpki_verif::engine::certref::{self as cr, RClaim};
+    let r = match cr::read_cert(cert) {
+        Ok(r) => r,
+        // relaxed mode may accept BER spellings (indefinite lengths) the reference reader does not follow
+        Err(e) => return if strict { Err(("reference_reads", format!("accepted in strict mode, but the reference reader cannot follow it: {e}"))) } else { Ok("accepted-relaxed-not-read") },
+    };
+    if !(r.not_before <= t && t <= r.not_after) { return Err(("validity", format!("accepted at {t}, window is [{}, {}]", r.not_before, r.not_after))) }
+    if r.aki.len() != 1 || r.aki[0].as_deref() != Some(iss.ski.as_slice()) {
+        return Err(("aki", format!("accepted with authority key identifier(s) {:?}, issuer's subject key identifier is {}", r.aki.iter().map(|a| a.as_ref().map(|a| hex(a))).collect::<Vec<_>>(), hex(&iss.ski))))
+    }
+    let want = rpki_verif::engine::signer::sha1(&r.key_bits);
+    if r.ski.len() != 1 || r.ski[0] != want { return Err(("ski", format!("accepted with subject key identifier(s) {:?}, SHA-1 of the key is {}", r.ski.iter().map(|a| hex(a)).collect::<Vec<_>>(), hex(&want)))) }
+    let refuse = r.policies.iter().any(|p| p == cr::OID_POLICY_REFUSE);
+    let trim = r.policies.iter().any(|p| p == cr::OID_POLICY_TRIM);
+    let res: [Option<Vec<(u128, u128)>>; 3] = match rc {
+        Some(rc) => [
+            Some(rc.v4_resources().iter().map(|b| (b.min().to_bits() >> 96, b.max().to_bits() >> 96)).collect()),
+            Some(rc.v6_resources().iter().map(|b| (b.min().to_bits(), b.max().to_bits())).collect()),
+            Some(rc.as_resources().iter().map(|b| (b.min().into_u32() as u128, b.max().into_u32() as u128)).collect()),
+        ],
+        None => [None, None, None],
+    };
+    let _ = kind;
+    for (name, entries, issuer, got) in [("v4", &r.v4, &iss.v4, &res[0]), ("v6", &r.v6, &iss.v6, &res[1]), ("as", &r.asn, &iss.asn, &res[2])] {
+        let inherit = entries.iter().any(|e| *e == RClaim::Inherit);
+        let blocks: Vec<(u128, u128)> = entries.iter().flat_map(|e| match e { RClaim::Blocks(v) => v.clone(), _ => vec![] }).collect();
+        if blocks.iter().any(|(a, b)| a > b) && refuse { return Err(("resources", format!("{name}: accepted with an inverted range {blocks:x?}"))) }
+        let claimed = cr::normalise(&blocks);
+        if refuse && !trim && !cr::subset(&claimed, issuer) { return Err(("resources", format!("{name}: no-overclaim certificate accepted although it claims {claimed:x?}, issuer holds {issuer:x?}"))) }
+        let Some(got) = got else { continue };
+        let got = cr::normalise(got);
+        if !cr::subset(&got, issuer) { return Err(("resources", format!("{name}: result {got:x?} is not inside the issuer's {issuer:x?}"))) }
+        let expect = if inherit && blocks.is_empty() { Some(cr::normalise(issuer)) }
+            else if inherit { None }
+            else if refuse && !trim { Some(claimed.clone()) }
+            else if trim && !refuse { Some(cr::intersect(&claimed, issuer)) }
+            else { None };
+        if let Some(e) = expect { if e != got { return Err(("resources", format!("{name}: result {got:x?}, the certificate's entries {entries:x?} under issuer {issuer:x?} give {e:x?}"))) } }
+    }
+    Ok(if r.trailing_in_ext_value > 0 { "accepted-verified-trailing-octets-in-extension-value" } else { "accepted-verified" })
 }
